@@ -146,6 +146,12 @@ class ExtMixin(object):
         return SeqV("family", var=v, lo=lo, hi=hi, elem=Num(ep.sym(v)))
 
     def x_sum(self, args, kwargs, node, env):
+        if len(args) == 2 or "start" in kwargs:
+            start = args[1] if len(args) == 2 else kwargs["start"]
+            rest = self.num(self.x_sum([args[0]], {}, node, env), node)
+            return Num(self.num(start, node) + rest)
+        if kwargs or len(args) != 1:
+            self.err(node, "sum() arguments")
         v = args[0]
         if isinstance(v, ListV):
             total = ep.const(0)
